@@ -145,8 +145,8 @@ func implSparseOps(line string) string {
 					opts.StateInitFile = state + ".init"
 					opts.StateInitConcurrency = 2
 				}
-				if strings.HasSuffix(op, "j") { // state-init and state-save are the same file: a re-initialised
-					// sparse file has blanked it by the time it is read, so nothing is pre-loaded
+				if strings.HasSuffix(op, "j") { // state-init and state-save are the same file (documented as allowed): it is
+					// read before the state file is blanked, so the pre-load sees what was saved
 					opts.StateInitFile = state
 					opts.StateInitConcurrency = 2
 				}
